@@ -20,7 +20,7 @@ ASSUMPTIONS = ['no stored logit is exactly 0.0 (0.0 is the sparse format\'s "pru
                'the end-to-end leg uses transcriptions with plain single spaces, geometry inside the page; both layouts go through the same decoder and exporter']
 N = {'quick': 500, 'thorough': 30000}
 CLASSES = ['roundtrip', 'roundtrip_bytes', 'subset', 'superset', 'legacy', 'missing_component', 'dense', 'rebuild', 'rebuild', 'empty_page']
-REQUIRED = ['roundtrip_lines', 'untouched_checked', 'missing_reported', 'dense_checked', 'rebuild_pages', 'rebuild_lines_decoded', 'rebuild_alto_compared', 'legacy_checked']
+REQUIRED = ['roundtrip_lines', 'untouched_checked', 'missing_reported', 'dense_checked', 'rebuild_pages', 'rebuild_lines_decoded', 'rebuild_alto_compared', 'legacy_checked', 'reloads']
 CHARSETS = [list('abcdefgh '), list('abc '), ['a', 'b', 'é', 'ạ̈', 'שׁ', '\U0001F600', ' '], [chr(0x61 + k) for k in range(26)] + [' ', '.', ',']]
 
 
@@ -186,7 +186,34 @@ def check(case, mon, ctx):
     mon.count('untouched_checked')
     if keep_obj.logits != 'KEEP-LOGITS' or keep_obj.characters != 'KEEP-CHARS' or keep_obj.logit_coords != 'KEEP-COORDS':
         mon.violation('absent-lines-untouched', {'line': keep_obj.id, 'logits': repr(keep_obj.logits)[:60]})
-    # dense reconstruction
+    check_dense(b, mon)
+    if cls in ('roundtrip', 'roundtrip_bytes', 'dense', 'subset'):
+        # history: the SAME layout object (already densified above) now loads a different file with the same line ids
+        case2 = dict(case, seed=case['seed'] + 1)
+        a2 = build_page(L, case2)
+        la2 = list(a2.lines_iterator())
+        for l_old, l_new in zip(lines_a, la2):
+            l_new.id = l_old.id
+        if len(la2) == len(lines_a) and la2:
+            try:
+                save_and_load(a2, b, case, ctx)
+            except Exception as e:
+                mon.violation('save-load-raises', {'exception': repr(e)[:300], 'step': 'second load into the same layout'})
+                return
+            mon.count('reloads')
+            by_id = {l.id: l for l in b.lines_iterator()}
+            for la in la2:
+                if la.id in drop:
+                    continue
+                lb = by_id[la.id]
+                if not same_sparse(la.logits, lb.logits) or lb.characters != la.characters or lb.logit_coords != la.logit_coords:
+                    mon.violation('restores-identical', {'line': la.id, 'step': 'second load into the same layout'})
+            check_dense(b, mon, step='after a second load into the same layout')
+    if cls == 'rebuild':
+        check_rebuild(a, case, mon, ctx)
+
+
+def check_dense(b, mon, step='after load'):
     for lb in b.lines_iterator():
         if not sparse.issparse(lb.logits):
             continue
@@ -197,16 +224,20 @@ def check(case, mon, ctx):
             exp = np.full(lb.logits.shape, float(floor))
             exp[src.row, src.col] = src.data
             if d.shape != exp.shape or not np.array_equal(d, exp):
-                mon.violation('dense-reconstruction', {'line': lb.id, 'floor': floor, 'max_abs_diff': float(np.abs(d - exp).max()) if d.shape == exp.shape else None})
+                mon.violation('dense-reconstruction', {'line': lb.id, 'floor': floor, 'step': step, 'max_abs_diff': float(np.abs(d - exp).max()) if d.shape == exp.shape else None,
+                              'shapes': [list(d.shape), list(exp.shape)]})
                 break
         lp = lb.get_full_logprobs()
-        if np.abs(np.logaddexp.reduce(lp, axis=1)).max() > 1e-9:
-            mon.violation('dense-rows-normalised', {'line': lb.id})
+        if lp.shape != lb.logits.shape or np.abs(np.logaddexp.reduce(lp, axis=1)).max() > 1e-9:
+            mon.violation('dense-rows-normalised', {'line': lb.id, 'step': step})
+            continue
         dn = lb.get_dense_logits()
         if np.abs((lp - dn) - (lp - dn)[:, :1]).max() > 1e-9:
-            mon.violation('dense-rows-normalised', {'line': lb.id, 'note': 'log-probabilities are not the dense logits minus a per-row constant'})
-    if cls == 'rebuild':
-        check_rebuild(a, case, mon, ctx)
+            mon.violation('dense-rows-normalised', {'line': lb.id, 'step': step, 'note': 'log-probabilities are not the dense logits minus a per-row constant'})
+        # the caller may modify what it gets: a second call must not be affected
+        dn[:] = 123.0
+        if np.array_equal(lb.get_dense_logits(), dn) and dn.size:
+            mon.violation('dense-reconstruction', {'line': lb.id, 'step': step, 'note': 'returned array aliases internal state (modifying it changed the next result)'})
 
 
 def check_rebuild(a, case, mon, ctx):
